@@ -78,12 +78,13 @@ def run(ctx):
         if not ins:
             continue
         ctx.note_fn(f)
-        # pattern A: a dominating `if (Size() == Capacity()) expand();`
+        # pattern A: a dominating test `Size() == Capacity()`: the insert is reached either over its false edge (there is room)
+        # or over its true edge only after expand()
         guard = None
         for i in astq.nodes_of(f, "IfStmt"):
             n = f.nodes[i]
             ct = f.text(n["cond"]).replace("(", "").replace(")", "").replace(" ", "")
-            if ct in ("Size==Capacity", "Capacity==Size") and [f.call_simple_name(c) for c in astq.calls(f, None, n["then"])] == ["expand"] and n["else"] < 0:
+            if ct in ("Size==Capacity", "Capacity==Size") and guard is None:
                 guard = i
         # pattern B: merge pre-size
         nsz = [d for s in astq.nodes_of(f, "DeclStmt") for d in f.nodes[s]["decls"] if d.get("n") == "n_size"]
@@ -95,9 +96,28 @@ def run(ctx):
                 tb = dataflow.block_of(f, c)
                 reach = dataflow.reachable(f, lambda b, s, kind, payload: b["id"] == cb)
                 ok = cb is not None and tb is not None and (tb not in reach or tb == cb)
+                if ok:
+                    # from the true edge (table full), the insert must not be reachable without passing an expand() call
+                    blocks_ = f.blocks()
+                    exp_blocks = {}
+                    for x in astq.calls(f, "expand"):
+                        exp_blocks.setdefault(dataflow.block_of(f, x), []).append(x)
+                    start = [s_ for (s_, kind, payload) in dataflow.successors(f, blocks_[cb]) if kind == "true"]
+                    seen_, work_ = set(), list(start)
+                    while work_:
+                        b_ = work_.pop()
+                        if b_ in seen_:
+                            continue
+                        seen_.add(b_)
+                        if b_ == tb and not (b_ in exp_blocks and min(exp_blocks[b_]) < c):
+                            ok = False
+                            break
+                        if b_ in exp_blocks:
+                            continue
+                        work_ += [s_ for (s_, k_, p_) in dataflow.successors(f, blocks_[b_])]
                 # and Size() does not grow between guard and insert: no other insert/++index_ before it on the path
                 earlier = [x for x in ins if x < c]
-                r.ob(f.sig, f.text(c)[:60], ok and not earlier, "dominated by `if (Size() == Capacity()) expand();`%s" % (" but another insert precedes it" if earlier else ""), f.loc(c))
+                r.ob(f.sig, f.text(c)[:60], ok and not earlier, "dominated by the test `Size() == Capacity()`: reached with room, or after expand()%s" % (" but another insert precedes it" if earlier else ""), f.loc(c))
             elif nsz:
                 init_t = f.text(nsz[0]["init"]).replace(" ", "")
                 ok_init = init_t in ("(Size()+src.Size())", "(src.Size()+Size())")
